@@ -62,6 +62,9 @@ type CodeSpec struct {
 	// UsernameClaim overrides the claim name carrying the user ("preferred_username").
 	UsernameClaim string
 	AccessToken   string // filled by NewCode
+	// AccessTokenClaims, if set, makes the access token JWT-shaped (header.payload.signature) with these
+	// claims in its payload, as ADFS / Azure AD hand out; nothing verifies such a token
+	AccessTokenClaims map[string]any
 	Used          int
 }
 
@@ -156,6 +159,11 @@ func (p *IdP) NewCode(spec CodeSpec) string {
 		n := 1500
 		fmt.Sscanf(spec.User, "longat%d", &n)
 		spec.AccessToken += "." + fmt.Sprintf("%x", GenStream(uint64(p.ctr), n/2))
+	}
+	if spec.AccessTokenClaims != nil {
+		hb, _ := json.Marshal(map[string]any{"alg": "RS256", "typ": "at+jwt"})
+		pb, _ := json.Marshal(spec.AccessTokenClaims)
+		spec.AccessToken = b64u(hb) + "." + b64u(pb) + "." + b64u([]byte(fmt.Sprintf("unverifiable-signature-%d", p.ctr)))
 	}
 	s := spec
 	p.codes[code] = &s
